@@ -16,7 +16,7 @@ open(src,'w').write(s[:-1]+"\n"+d+"\n}\n")
 PY
 }
 insert
-cargo test --offline -p $CRATE $EXTRA --lib c16_ c20_ 2>/dev/null > $DIR/without.log; 
+
 cargo test --offline -p $CRATE $EXTRA --lib > $DIR/without.log 2>&1; W=$?
 git checkout -q -- .
 git apply $DIR/patch.diff || { echo "PATCH DOES NOT APPLY" >> $LOG; exit 1; }
